@@ -25,7 +25,9 @@ FOOT = {"Server": ["energy_footprint", "instances_fabrication_footprint"], "Stor
 DRIVERS = {"Server": ["power_usage_effectiveness", "average_carbon_intensity", "carbon_footprint_fabrication", "lifespan"],
            "Storage": ["carbon_footprint_fabrication_per_storage_capacity", "lifespan"],
            "Network": ["bandwidth_energy_intensity"], "Job": ["data_transferred"], "Country": ["average_carbon_intensity"],
-           "Device": ["power", "carbon_footprint_fabrication", "lifespan", "fraction_of_usage_time"], "System": ["ALL_TRAFFIC"]}
+           "Device": ["power", "carbon_footprint_fabrication", "lifespan", "fraction_of_usage_time"], "System": ["ALL_TRAFFIC"],
+           "GPUServer": ["power_usage_effectiveness", "average_carbon_intensity", "lifespan"],
+           "BoaviztaCloudServer": ["power_usage_effectiveness", "average_carbon_intensity", "lifespan"]}
 
 
 def make_spec(seed, s):
@@ -40,6 +42,9 @@ def make_spec(seed, s):
         O["srv1"]["params"]["server_type"] = ["s", "serverless"]
         from ..spec import prune
         return prune(sp)
+    if s == 1:
+        from .c17 import builder_spec
+        return builder_spec(rnd)          # GPU server + cloud-instance server + service jobs: the same drivers must act the same way
     return gen.rand_spec(rnd, "quick", jobless_ok=False, max_len=24)
 
 
@@ -69,7 +74,7 @@ def expectations(spec, n, p):
     ups = [u for u in names if O[u]["cls"] == "UsagePattern"]
     out = {}
     cls = O[n]["cls"]
-    if cls == "Server":
+    if cls in SP.SERVER_CLS:
         if p in ("power_usage_effectiveness", "average_carbon_intensity"):
             out[(n, "energy_footprint")] = ("scale", 1)
             out[(O[n]["params"]["storage"][1], "energy_footprint")] = ("scale", 1)
@@ -81,10 +86,10 @@ def expectations(spec, n, p):
         out[(n, "instances_fabrication_footprint")] = ("scale", 1 if p != "lifespan" else -1)
     elif cls == "Network":
         out[(n, "energy_footprint")] = ("scale", 1)
-    elif cls == "Job":
+    elif cls in SP.JOB_CLS:
         for net in {O[u]["params"]["network"][1] for u in ups if n in gen.jobs_of_up(spec, u)}:
             contributors = {j for u in ups if O[u]["params"]["network"][1] == net for j in gen.jobs_of_up(spec, u)
-                            if O[j]["params"]["data_transferred"][1] != 0}
+                            if O[j]["params"].get("data_transferred", ["q", 1])[1] != 0}
             out[(net, "energy_footprint")] = ("scale", 1) if contributors <= {n} else ("affine", 1)
     elif cls == "Country":
         mine = [u for u in ups if O[u]["params"]["country"][1] == n]
